@@ -77,8 +77,17 @@ def main():
             if c == "prism" and it == "dS":
                 continue
             bases.append(space.baseline(c, it))
-    # facet baselines use DG1 so that '+'/'-' blocks are not coupled by continuity assumptions
-    nodes, edges, by = space.explore(bases, radius)
+    if chk.thorough:
+        # radius 2 around the eight cheaper baselines, radius 1 around the others (the full radius-2 graph has 35 000 nodes x full code products)
+        deep = {("triangle", "ds"), ("triangle", "dS"), ("triangle", "dP"), ("tetrahedron", "ds"), ("tetrahedron", "dS"), ("quadrilateral", "dS"), ("prism", "ds"), ("interval", "dS")}
+        nodes, edges, by = space.explore([b for b in bases if (b["cell"], b["itype"]) in deep], 2)
+        n1, e1, by1 = space.explore([b for b in bases if (b["cell"], b["itype"]) not in deep], 1)
+        nodes.update(n1)
+        edges += e1
+        for k, v in by1.items():
+            by[k] = by.get(k, 0) + v
+    else:
+        nodes, edges, by = space.explore(bases, radius)
     mode = "full" if chk.thorough else "quick"
     inst = ("aff", "rev") if chk.thorough else ("aff",)
     counts, samples, rejected, unsupported = bcheck.run_configs(chk, nodes, kw=dict(entity_mode=mode, instances=inst), desc="C02")
